@@ -480,15 +480,15 @@ def cases(tier, rng):
             n0 = len(base["recs"][0])
             perms = [[0, 2, 1, 3], [0, 2, 1, 3, 4], [1, 3, 2, 4], [0, 3, 1, 2, 4], [0, 1, 3, 2, 4, 5], [0, 4, 2, 3, 1, 5], [2, 4, 3, 5],
                      [0, 0, 2], [1, 1, 3], [0, 1, 1, 3], [2, 2, 3, 5], [0, 0, 0, 3], [3, 3, 5], [0, 2, 2, 3, 3, 5][:5]]
-            for L in perms:
-                one = {"sel": d0, "ix": {"ints": L}}
+            for perm in perms:
+                one = {"sel": d0, "ix": {"ints": perm}}
                 yield _set_op(dict(base, prog=one))
                 if rng.random() < 0.5:
                     yield _set_op(dict(base, prog={"sel": {"touch": one}, "ix": {"slice": [None, None, -1]}}))
                 if fmt != "bam" and rng.random() < 0.5:
                     yield _set_op(dict(base, prog={"cat": [one, {"sel": d0, "ix": {"slice": [1, 3, 1]}}]}))
                 if rng.random() < 0.4:
-                    yield _set_op(dict(base, prog={"sel": {"sel": d0, "ix": {"slice": [None, None, 1]}}, "ix": {"ints": L}}))
+                    yield _set_op(dict(base, prog={"sel": {"sel": d0, "ix": {"slice": [None, None, 1]}}, "ix": {"ints": perm}}))
             rep = FORMATS[fmt][3]
             children = [{"slice": [2, 5, 1]}, {"slice": [1, None, 2]}, {"slice": [1, None, 1]}, {"slice": [3, 0, -1]}, {"ints": [4, 2]}]
             for ch in children:
